@@ -213,6 +213,7 @@ def gen_pipeline_case(rng, families=None, methods=('cycles', 'amp'), nsec=(1.0, 
             thr = None
     else:
         thr, bk, route = gen_amp_options(rng, lo)
-    return dict(sig=sig, fs=fs, f_range=(lo, hi), center_extrema=center, burst_method=method,
+    view = [None, None, None, None, None, None, 'strided', 'readonly'][int(rng.integers(0, 8))]
+    return dict(sig=sig, sig_view=view, fs=fs, f_range=(lo, hi), center_extrema=center, burst_method=method,
                 burst_kwargs=bk, threshold_kwargs=thr, find_extrema_kwargs=fek,
                 return_samples=bool(rng.random() < 0.8), family=kind, route=route)
